@@ -59,8 +59,9 @@ pub fn analyze_encoding(array: &dyn Array) -> VectorEncoding {
 
 /// Check if all values in the array are identical
 fn is_constant(array: &dyn Array) -> bool {
-    if array.len() <= 1 {
-        return true;
+    // A NULL-bearing array is not rebuilt faithfully from one scalar
+    if array.null_count() > 0 {
+        return false;
     }
 
     // For primitive arrays
